@@ -152,6 +152,30 @@ def _length_origin(base, site, par):
     return base
 
 
+def _nonempty_for(R, n, par):
+    """is node n only reached when collection R is non-empty (tests by if / early return / `len() != 1 { return }`)"""
+    import guards
+
+    def atom(c, R=R):
+        t = show(c, maxdepth=8).replace(" ", "").replace("(", "").replace(")", "")
+        r_ = R.replace("(", "").replace(")", "")
+        if t == f"!{r_}.is_empty":
+            return 1
+        if t == f"{r_}.is_empty":
+            return -1
+        m = re.fullmatch(re.escape(r_) + r"\.len(>|>=|==|!=|<)(\d+)", t)
+        if m:
+            op, k = m.group(1), int(m.group(2))
+            if (op == ">" and k >= 0) or (op == ">=" and k >= 1) or (op == "==" and k >= 1) or (op == "!=" and k == 0):
+                return 1
+            if (op == "==" and k == 0) or (op == "<" and k <= 1):
+                return -1
+        return 0
+    if guards.side_of(par, n, atom) is True:
+        return True
+    return bool(guards.len_is_one_guard(n, par, R))
+
+
 def nonempty_tested(sdict, syn, _cache={}):
     """`R.last() / first() / pop() / next() .. .unwrap()` only reached when R was tested non-empty (`!R.is_empty()`, `R.len() > 0`, `>= 1`, `== k` with
     k >= 1, a match arm `k =>` on `R.len()`), in any of the if / else / early-return spellings."""
@@ -169,10 +193,15 @@ def nonempty_tested(sdict, syn, _cache={}):
             base = n["r"]["r"]
             while base.get("k") == "mcall" and base["m"] in ("iter", "into_iter", "iter_mut", "chars", "as_slice", "as_mut", "as_ref", "clone", "drain") and not base["a"]:
                 base = base["r"]
-            base = _length_origin(base, n, par)
-            R = show(base, maxdepth=10).lstrip("&*")
-            if not R or "(" in R.replace("()", ""):
+            # the collection as it is named at the site, and (when that is a local of known origin) the collection it was made from
+            # with length-preserving steps: a test of either one dominates the site
+            cands = [show(base, maxdepth=10).lstrip("&*"), show(_length_origin(base, n, par), maxdepth=10).lstrip("&*")]
+            cands = [c_ for i_, c_ in enumerate(cands) if c_ and "(" not in c_.replace("()", "") and c_ not in cands[:i_]]
+            if not cands:
                 continue
+            if len(cands) > 1 and _nonempty_for(cands[0], n, par):
+                return True
+            R = cands[-1]
 
             def atom(c, R=R):
                 t = show(c, maxdepth=8).replace(" ", "").replace("(", "").replace(")", "")
@@ -191,7 +220,7 @@ def nonempty_tested(sdict, syn, _cache={}):
                 return 0
             if guards.side_of(par, n, atom) is True:
                 return True
-            if guards.len_is_one_guard(n, par, R) is True:
+            if bool(guards.len_is_one_guard(n, par, R)):
                 return True
             # a match arm `k =>` (k >= 1) on `R.len()`
             cur = n
